@@ -25,7 +25,7 @@ from .. import core
 from .. import draw_common as dc
 from .. import hyp_common as hc
 
-SCENE_INVARIANTS = ["VerticesArePoints", "CoordsAgree", "EdgesAreGeodesics", "Equivariant", "HorospheresAreCircles", "VerticalsAreGeodesics",
+SCENE_INVARIANTS = ["VerticesArePoints", "CoordsAgree", "EdgesAreGeodesics", "Equivariant", "HorospheresAreCircles", "VerticalsAreGeodesics", "ShrinkLaws",
                     "EmitScene"]
 
 
@@ -70,8 +70,8 @@ def path_machine(jobs):
     jobs.start("draw/DrawPath.tla", c, "DrawPath", workers=1)
 
 
-def start_scenes(jobs, name, threshold, B, core_, maxword, maxverts, simulate=None, depth=None, workers=2):
-    c = core.cfg(constants=dict(N=2, B=B, Threshold=threshold, MaxWord=maxword, MaxVerts=maxverts, Core=core_),
+def start_scenes(jobs, name, threshold, B, core_, maxword, maxverts, simulate=None, depth=None, workers=2, shrinks=(30,)):
+    c = core.cfg(constants=dict(N=2, B=B, Threshold=threshold, MaxWord=maxword, MaxVerts=maxverts, Core=core_, Shrinks=set(shrinks)),
                  invariants=SCENE_INVARIANTS, view="View")
     jobs.start("draw/DrawScene.tla", c, name, workers=workers, simulate=simulate, depth=depth)
 
@@ -80,7 +80,7 @@ def scenes(jobs, name):
     r = jobs.result(name)
     seen, out = set(), []
     for e in r.emits:
-        k = (dc.word_key(e["word"]), json.dumps(e["verts"]), json.dumps(e.get("win")))
+        k = (dc.word_key(e["word"]), json.dumps(e["verts"]), json.dumps(e.get("win")), e.get("shrink", 0))
         if k not in seen:
             seen.add(k)
             out.append(e)
@@ -112,12 +112,13 @@ class Recorder:
         self.traces, self.meta = [], []
         self.kinds = {}
         self.bands = {}
+        self.small = {}
         self.threshold = None
 
     def record(self, what, model, scene, closed, outline):
         geom = scene["geom"][model]
         evs = dc.outline_events(model, geom, closed, outline[1], outline[2], ideal=scene["ideal"])
-        self.traces.append(dict(model=model, word=scene["word"], verts=scene["verts"], closed=closed, events=evs))
+        self.traces.append(dict(model=model, word=scene["word"], verts=scene["verts"], closed=closed, shrink=0, events=evs))
         self.meta.append(dict(what=what, artist=outline[0], expect=["arc" if e["kind"] == "arc" else "straight" for e in geom["edges"]]))
         for e in geom["edges"]:
             self.kinds[(model, e["kind"])] = self.kinds.get((model, e["kind"]), 0) + 1
@@ -457,7 +458,7 @@ def replay_proj(run, rec, scs, rng):
                 run.violation(key + ":count", "artist.one_outline_per_object", dict(chart=chart, M=M, vectors=s["verts"], outlines=len(outs)))
                 continue
             evs = dc.outline_events("affine", geom, n >= 3, outs[0][1], outs[0][2])
-            rec.traces.append(dict(model="affine", word=[], verts=s["verts"], closed=n >= 3, events=evs))
+            rec.traces.append(dict(model="affine", word=[], verts=s["verts"], closed=n >= 3, shrink=0, events=evs))
             rec.meta.append(dict(what=what, artist=outs[0][0], chart=chart, M=M, rep=s["rep"], spec_affine=want.tolist(), expect=["straight"] * n))
         if chart == 0:
             by_n = {}
@@ -501,7 +502,7 @@ def proj_array(run, rec, d, M, mk, batch):
     for s, o in zip(inside, paths):
         geom = dict(vc=s["aff"], edges=[dict(kind="line")] * n)
         evs = dc.outline_events("affine", geom, True, o[1], o[2])
-        rec.traces.append(dict(model="affine", word=[], verts=s["verts"], closed=True, events=evs))
+        rec.traces.append(dict(model="affine", word=[], verts=s["verts"], closed=True, shrink=0, events=evs))
         rec.meta.append(dict(what="proj_polygon[array, assume_affine=False]", artist=o[0], chart=0, M=M, rep=s["rep"], expect=["straight"] * n))
     allp = np.vstack(pats) if pats else np.zeros((0, 2))
     for s in crossing:
@@ -573,6 +574,61 @@ def wrong_dimension(run, dims):
         dc.close(d)
 
 
+def replay_small(run, rec, scs, rng, batch=24):
+    """small polygons: the emitted polygon shrunk by the loxodromic Lox(1, q), through the drawing's transformation or by
+    transforming the object; the outlines are validated for their structure (one stroke, vertices in order, kinds)"""
+    H = hc.H()
+    groups = {}
+    for s in scs:
+        groups.setdefault((s["shrink"], len(s["verts"])), []).append(s)
+    for (q, n) in sorted(groups):
+        grp = groups[(q, n)]
+        for model in ("poincare", "halfplane"):
+            route = rng.choice(["drawing_transform", "object_transformed"])
+            try:
+                lox = H.Isometry.standard_loxodromic(2, 1.0 / q)
+                d = dc.make_drawing(model, [], rng=rng)
+                if route == "drawing_transform":
+                    d.set_transform(lox) if rng.random() < 0.5 else d.add_transform(lox)
+            except Exception as ex:
+                run.violation("small:%s:shrink=%d:drawing" % (model, q), "raised:drawing", dict(model=model, shrink=q, error="%s: %s" % (type(ex).__name__, ex)))
+                continue
+            for i in range(0, len(grp), batch):
+                ss = grp[i:i + batch]
+                data = arr([s["verts"] for s in ss])
+                key = "small:%s:shrink=%d:%s" % (model, q, json.dumps([s["verts"] for s in ss[:2]], separators=(",", ":")))
+                run.case(key=("small", model, q, route, json.dumps([s["verts"] for s in ss])), action="draw_polygon[%s, small]" % model)
+                run.evaluations += len(ss) - 1
+                try:
+                    poly = H.Polygon(data if len(ss) > 1 else data[0])
+                    if route == "object_transformed":
+                        poly = lox @ poly
+                    d.draw_polygon(poly)
+                    outs = artists_outlines(d)
+                    # names of the vertices: exact half-plane coordinates (spec); their Poincare coordinates through the
+                    # library's chart map (C01)
+                    hp = np.array([[dc.rat2(c) for c in s["hp"]] for s in ss])
+                    vcs = hp if model == "halfplane" else np.asarray(H.Point(hp.copy(), model="halfspace").coords("poincare"), float)
+                except Exception as ex:
+                    dc.clear(d)
+                    run.violation(key + ":raised", "raised:draw_polygon", dict(model=model, shrink=q, route=route, polygons=[s["verts"] for s in ss[:3]],
+                                                                               error="%s: %s" % (type(ex).__name__, ex)))
+                    continue
+                dc.clear(d)
+                if len(outs) != len(ss):
+                    run.violation(key + ":count", "artist.one_outline_per_object", dict(model=model, shrink=q, objects=len(ss), outlines=len(outs)))
+                    continue
+                for s, o, vc in zip(ss, outs, vcs):
+                    evs = dc.structure_events(vc, o[1], o[2])
+                    rec.traces.append(dict(model=model, word=[], verts=s["verts"], closed=True, shrink=q, events=evs))
+                    el = np.linalg.norm(vc - np.roll(vc, -1, axis=0), axis=1)
+                    rec.meta.append(dict(what="small_polygon", artist=o[0], route=route, expect=s["kinds"][model],
+                                         edge_lengths_in_model_coordinates=[float("%.3g" % x) for x in el]))
+                    b = int(np.floor(np.log10(el.min())))
+                    rec.small[(model, b)] = rec.small.get((model, b), 0) + 1
+            dc.close(d)
+
+
 def own_axes(run):
     """the artist is added to the drawing's own axes, whatever matplotlib's current axes are"""
     H = hc.H()
@@ -617,6 +673,8 @@ def run(run, replay=None):
         "half-plane objects inside the drawing's window (default |x| <= 6, y <= 8; custom xlim/ylim (4,14)x8 and (-20,20)x12 with objects outside the "
         "default window), no vertex at infinity; radius = threshold exactly excluded; model given as alias string (any case) or enum member",
         "artists of a composite are read in the order of its flattened index; Bezier approximation of circles by matplotlib trusted to 1e-4 r",
+        "small polygons (edges 5e-6 .. 4e-2 in model coordinates: the polygon shrunk by Lox(1, q), q <= 10^5): path structure and kinds of "
+        "the pieces only, vertices named by exact half-plane coordinates / the library's chart map (C01), tolerances relative to the shortest edge",
         "not covered: rasterisation, styles, 3-D drawings, draw_nonaff_polygon, horoarcs, boundary arcs, CP1 drawings",
     ]
     run.extra["radius_threshold"] = threshold
@@ -625,14 +683,16 @@ def run(run, replay=None):
     rec = Recorder(run, rng)
     rec.threshold = threshold
     if quick:
-        plan = [dict(name="scenes_pairs", B=5, core_=2, maxword=0, maxverts=2),
+        plan = [dict(name="scenes_small", B=4, core_=7, maxword=0, maxverts=4, shrinks=(100, 1000, 10000, 100000)),
+                dict(name="scenes_pairs", B=5, core_=2, maxword=0, maxverts=2),
                 dict(name="scenes_windows", B=5, core_=5, maxword=0, maxverts=3),
                 dict(name="scenes_words", B=5, core_=6, maxword=2, maxverts=2),
                 dict(name="scenes_triangles", B=5, core_=1, maxword=0, maxverts=3),
                 dict(name="scenes_bands", B=5, core_=4, maxword=0, maxverts=3),
                 dict(name="scenes_sim", B=5, core_=3, maxword=2, maxverts=8, simulate=10, depth=11)]
     else:
-        plan = [dict(name="scenes_triangles", B=7, core_=2, maxword=0, maxverts=3),
+        plan = [dict(name="scenes_small", B=4, core_=7, maxword=0, maxverts=5, shrinks=(30, 100, 300, 1000, 3000, 10000, 30000, 100000)),
+                dict(name="scenes_triangles", B=7, core_=2, maxword=0, maxverts=3),
                 dict(name="scenes_pairs_words", B=5, core_=1, maxword=1, maxverts=2),
                 dict(name="scenes_windows", B=5, core_=5, maxword=0, maxverts=4),
                 dict(name="scenes_words", B=5, core_=6, maxword=3, maxverts=2),
@@ -652,12 +712,23 @@ def run(run, replay=None):
     for p in plan:
         scs = scenes(jobs, p["name"])
         nsc += len(scs)
+        if p["core_"] == 7:
+            replay_small(run, rec, scs, rng)
+            if scs:
+                s = scs[len(scs) // 2]
+                run.sample(dict(kind="small polygon", **s))
+            continue
         replay_scenes(run, rec, scs, rng, point_rate=(0.25 if p["name"] == "scenes_triangles" else 1.0))
         if scs:
             s = scs[len(scs) // 2]
             run.sample(dict(kind="scene (%s)" % p["name"], word=s["word"], verts=s["verts"], transformed=s["tv"],
                             poincare=s["geom"]["poincare"], halfplane_ok=s["geom"]["halfplane"]["ok"]))
     run.extra["scenes"] = nsc
+    run.extra["small_polygons_by_log10_of_shortest_edge"] = {"%s/1e%d" % k: v for k, v in sorted(rec.small.items())}
+    for m in ("poincare", "halfplane"):
+        for b in (-3, -4, -5):
+            if not rec.small.get((m, b)):
+                raise core.MachineryFailure("vacuous: no small polygon with shortest edge of order 1e%d was drawn in the %s model" % (b, m))
     run.extra["edge_kinds_drawn"] = {"%s/%s" % k: v for k, v in sorted(rec.kinds.items())}
     for m in ("poincare", "halfplane"):
         for kd in ("arc", "chord", "line"):
